@@ -268,8 +268,10 @@ def walk(node, parents=()):
         yield node, parents
         p2 = parents + (node,)
         for k, v in node.items():
-            if k in ("c", "res", "lit", "pat", "params"):
+            if k in ("res", "lit", "pat", "params"):
                 continue
+            if k == "c" and isinstance(v, dict) and "k" not in v:
+                continue  # callee record (an `if` keeps its condition under "c" too)
             if isinstance(v, (dict, list)):
                 yield from walk(v, p2)
     elif isinstance(node, list):
@@ -283,7 +285,9 @@ def walk_all(node):
         if "k" in node:
             yield node
         for k, v in node.items():
-            if k in ("c", "res", "lit"):
+            if k in ("res", "lit"):
+                continue
+            if k == "c" and isinstance(v, dict) and "k" not in v:
                 continue
             if isinstance(v, (dict, list)):
                 yield from walk_all(v)
